@@ -110,8 +110,11 @@ def execute(case, var, D=None):
 
 
 def signature(desc, feat, name, clause):
-    f = [t for t in ('p2-no-inner', 'unitvol-bdry') if t in feat]
-    if f:       # a cell the specification names: the family is the cell (the first one, if several apply)
+    f = [t for t in ('unitvol-bdry', 'p2-no-inner') if t in feat]
+    if f:       # a cell the specification names: the family is the cell; if both apply, a call that raises
+                # belongs to the missing inner product, a wrong value to the boundary fractions
+        if len(f) == 2:
+            f = ['p2-no-inner'] if clause == 'raised' else ['unitvol-bdry']
         return {'kind': desc['kind'], 'feature': f[0], 'clause': clause}
     return {'kind': L.kinds(desc), 'w': desc['w']['k'], 'p': L.pclass(desc),
             'feature': '-', 'obs': L.obs_class(name), 'clause': clause}
@@ -346,7 +349,7 @@ def run(ctx):
     t_model = time.time()
 
     # ---- 2. replay of exported cases on real ODL (process pool) ----
-    per_case = 2 if quick else 5
+    per_case = 2 if quick else 4
     tasks = []
     for g in GROUPS:
         with open(os.path.join(work, 'exp_%s.ndjson' % g)) as f:
@@ -365,6 +368,7 @@ def run(ctx):
     events = []                       # (event, case, variant key, info)
     sigcount = {}
     featstat = {}
+    sampled = set()
 
     def report(sig, detail):
         key = dumps(sig, sort_keys=True)
@@ -382,7 +386,10 @@ def run(ctx):
             events.append((ev, case, vkey, info))
             regime = 'small' if vkey['tile'] == 1 else ('medium' if vkey['tile'] < 1000 else 'large')
             ctx.count([case['spc'], case['x'], case['y'], np.dtype(vkey['dtype']).kind, regime], nontrivial(case))
-            if len(ctx.samples) < 4 and nontrivial(case) and case['spc']['kind'] != 'tensor' and len(events) % 977 == 0:
+            skey = (case['g'], regime)
+            if nontrivial(case) and skey not in sampled and len(sampled) < 5 and \
+                    (case['g'] != 'tensor' or regime == 'large') and case['e']['ixy']['s'] == 'ok' and not bad:
+                sampled.add(skey)
                 ctx.sample({'abstract': {k: case[k] for k in ('spc', 'x', 'y', 'a')}, 'concretisation': vkey,
                             'expected': {n: case['e'][n] for n in ('ixy', 'nx', 'dxy', 'none')},
                             'observed': {n: ev['o'][n] for n in ('ixy', 'nx', 'dxy', 'none')}})
